@@ -259,7 +259,7 @@ inline std::string run_dynP(const std::string& level, const uvec& src, const std
     }
     return run_dynamic(level, src, l);
 }
-inline std::string run_dynA(const std::string& level, const uvec& src, const std::vector<Entry>& es) {
+inline auto dynA_list(const std::vector<Entry>& es) {
     using T = dynA_types;
     nmtools_list<typename T::slice_t> l;
     for (auto& e : es) {
@@ -268,7 +268,31 @@ inline std::string run_dynA(const std::string& level, const uvec& src, const std
         else if (e.kind == K_R3) l.push_back(T::of_arr(e));
         else throw bad_args("dynA needs all-int ranges");
     }
-    return run_dynamic(level, src, l);
+    return l;
+}
+inline std::string run_dynA(const std::string& level, const uvec& src, const std::vector<Entry>& es) {
+    return run_dynamic(level, src, dynA_list(es));
+}
+// a slice view of a slice view (a[sl][sl2]): shape and the source element every result element reads
+inline std::string run_slice2(const uvec& src, const std::vector<Entry>& es1, const std::vector<Entry>& es2) {
+    auto l1 = dynA_list(es1); auto l2 = dynA_list(es2);
+    auto a = iota_array(src);
+    auto v1 = view::apply_slice(a, l1);
+    auto v2 = view::apply_slice(v1, l2);
+    auto dst = to_uvec(nm::shape(v2));
+    std::string out = "ok shape=" + fmtu(dst) + " data=";
+    size_t n = numel_sat(dst, MAX_ELEMS);
+    if (n > MAX_ELEMS) return out + "big";
+    if (n == 0) return out + "[]";
+    for (size_t k = 0; k < n; k++) {
+        uvec d = unravel(k, dst);
+        auto mid = to_uvec(v2.indexer.indices(d));
+        if (!in_shape(mid, to_uvec(nm::shape(v1)))) return out + "oob@" + std::to_string(k);
+        if (!in_shape(to_uvec(v1.indexer.indices(mid)), src)) return out + "oob@" + std::to_string(k);
+        if (k) out += ',';
+        out += std::to_string((long long)nm::apply_at(v2, d));
+    }
+    return out;
 }
 
 } // namespace c05
